@@ -5,10 +5,17 @@
    and for every amount of fuel, if the analysis of A against itself returns, it returns no difference — through
    references, allOf, items, the visited marks and the bookkeeping of referenced definitions (Tools/DiffIdentity.v).
    The theorems after it cover every comparison function for all inputs.
-   PARTIAL: totality (diff never panics) is proved for the parameter level (C12_compare_simple_refl) and decided on the
-   implementation otherwise (worker processes: panic, fatal stack overflow, hang); the model's Panic outcomes mark the
-   inputs the real code dereferences nil on (missing definition, array without items). *)
-From GS Require Import Base.Str Gen.GenDiffTables Tools.DiffTypes Tools.DiffSpec Tools.DiffModel Tools.DiffModelLemmas Tools.DiffIdentity.
+   C12_total is the "never crashes" half on the model: for every pair of closed documents (every $ref names a
+   definition, every array schema and array parameter carries items — what Swagger 2.0 validity demands) and every
+   amount of fuel the analysis never takes a Panic branch; the Panic branches of the model are the nil dereferences of
+   the real analyser (missing definition, array without items), compared with the implementation on every run.
+   PARTIAL: that the recursion ends (no Fuel outcome with enough fuel, i.e. no unbounded recursion through references)
+   is decided on the implementation only (worker processes observe fatal stack overflow and hangs). *)
+From GS Require Import Base.Str Gen.GenDiffTables Tools.DiffTypes Tools.DiffSpec Tools.DiffModel Tools.DiffModelLemmas Tools.DiffIdentity Tools.DiffTotal.
+
+Theorem C12_total : forall fuel a b, closed_swaggerb a = true -> closed_swaggerb b = true -> analyse fuel a b <> Panic.
+Proof. exact analyse_total. Qed.
+Print Assumptions C12_total.
 
 Theorem C12_identity : forall fuel a ds, wf_swaggerb a = true -> analyse fuel a a = Ok ds -> ds = [].
 Proof. exact analyse_identity. Qed.
@@ -44,7 +51,13 @@ Definition sample_doc : swagger :=
                                                                                      r_headers := [(s "X-Total", Simple (s "integer") [] [] false DNone DNone no_vals None)] |});
                                                                           (404%Z, {| r_desc := s "none"; r_schema := None; r_headers := [] |})] |})] |})];
      sw_defs := [(s "Pet", pet); (s "Owner", owner); (s "Named", named)] |}.
-Example C12_identity_nonvacuous : wf_swaggerb sample_doc = true /\ analyse 12 sample_doc sample_doc = Ok [].
+Example C12_identity_nonvacuous : wf_swaggerb sample_doc = true /\ closed_swaggerb sample_doc = true /\ analyse 12 sample_doc sample_doc = Ok [].
+Proof. repeat split; vm_compute; reflexivity. Qed.
+(* closedness is needed: a reference to a missing definition is a nil dereference in the real code and a Panic here *)
+Example C12_panic_on_dangling_ref :
+  let bad := {| sw_consumes := None; sw_produces := None; sw_schemes := None; sw_host := []; sw_basepath := []; sw_info_desc := [];
+                sw_paths := []; sw_defs := [(s "A", Schema [] [s "object"] [] [] no_vals None [(s "x", ref_to (s "Missing"))] [] [])] |} in
+  closed_swaggerb bad = false /\ analyse 5 bad bad = Panic.
 Proof. split; vm_compute; reflexivity. Qed.
 
 Theorem C12_compare_props_refl : forall x, compare_props x x = Ok [].
